@@ -787,8 +787,8 @@ Proof.
   - intros (m & n & a & b & -> & -> & H1 & H2 & Hc). cbn. split; [lia|].
     rewrite nth_error_map in H1, H2.
     destruct (nth_error l m) as [d1|] eqn:E1; [|discriminate].
-    cbn in H1, H2. assert (D1 : is_data d1 = false) by congruence. assert (D2 : is_data d2 = false) by congruence. exists d1, d2. repeat split; auto.
-    cbn in H1, H2. inversion H1; inversion H2; subst. exists d1, d2. repeat split; auto.
+    destruct (nth_error l (m + S n)) as [d2|] eqn:E2; [|discriminate].
+    cbn in H1, H2. assert (D1 : is_data d1 = false) by congruence. assert (D2 : is_data d2 = false) by congruence. exists d1, d2. assert (a = fixed_sig d1) by congruence. assert (b = fixed_sig d2) by congruence. subst a b. repeat split; auto.
   - intros (Hlt & d1 & d2 & E1 & E2 & D1 & D2 & Hc).
     exists i, (j - i - 1)%nat, (fixed_sig d1), (fixed_sig d2). cbn.
     replace (i + S (j - i - 1))%nat with j by lia.
